@@ -419,6 +419,17 @@ func applyPseudo(p mq.Packet, name, arg string) {
 			k, _ = strconv.Atoi(arg)
 		}
 		p.WriteTo(&scriptWriter{mode: 'S', k: k, err: injectedErr(4)})
+	case "~UPSet":
+		// the program changes an element of the exported UserProperties slice in place:
+		// ~UPSet:<index>:<key hex>:<value hex>
+		parts := strings.Split(arg, ":")
+		f := reflect.ValueOf(p).Elem().FieldByName("UserProperties")
+		if f.IsValid() && len(parts) == 3 {
+			i, _ := strconv.Atoi(parts[0])
+			if i < f.Len() {
+				f.Index(i).Set(reflect.ValueOf(mq.UserProp{string(unhex(parts[1])), string(unhex(parts[2]))}))
+			}
+		}
 	case "~FilterSet":
 		// the program changes a filter in place through the slice Filters() returned:
 		// ~FilterSet:<index>:<filter hex>:<options>
